@@ -818,6 +818,148 @@ Proof.
     cbn [pbind]. now rewrite HP. }
   rewrite E. cbn [pbind]. now rewrite stop_pipe.
 Qed.
+(** ** the other spellings: mode words of fields, total without `as`, parse with `from` last *)
+Lemma fields_mode_plus r : fields_mode (43%N :: r) = POk true r.
+Proof. reflexivity. Qed.
+Lemma fields_mode_minus r : fields_mode (45%N :: r) = POk false r.
+Proof. reflexivity. Qed.
+
+(** the texts [m] of the mode: nothing (then the first field must not read as a mode word), a symbol and
+    optional whitespace, or a word and whitespace *)
+Definition fmode_ok (only : bool) (m : str) (n : str) : Prop :=
+  if only
+  then (m = [] /\ mode_word n = false) \/ m = 43%N :: po_ws0 o \/ m = lit "only" ++ po_ws1 o
+       \/ m = lit "include" ++ po_ws1 o
+  else m = lit "except" ++ po_ws1 o \/ m = 45%N :: po_ws0 o \/ m = lit "drop" ++ po_ws1 o.
+
+Lemma fields_rt_gen only m n l k :
+  fmode_ok only m n -> stage_stop k = true ->
+  p_fields ((lit "fields" ++ po_ws1 o ++ m ++ names_text o (n :: l)) ++ k)
+  = POk (LStage (SFields only (n :: l))) k.
+Proof.
+  intros Hm Hk. rewrite <- !app_assoc. unfold p_fields, ptag.
+  rewrite Roundtrip_proofs.strip_prefix_app. cbn [pbind].
+  assert (Hsym : forall b : bool, fields_mode ((if b then 43%N else 45%N) :: po_ws0 o ++ names_text o (n :: l) ++ k)
+                           = POk b (po_ws0 o ++ names_text o (n :: l) ++ k) ->
+          (LET mode, r2 <- popt fields_mode ((if b then 43%N else 45%N) :: po_ws0 o ++ names_text o (n :: l) ++ k) IN
+           LET fs, r3 <- var_list r2 IN
+           POk (LStage (SFields (match mode with Some m0 => m0 | None => true end) fs)) r3)
+          = POk (LStage (SFields b (n :: l))) k).
+  { intros b H. unfold popt. rewrite H. cbn [pbind].
+    rewrite (var_list_ok (po_ws0 o) n l k w0_sp (stop_nid k Hk) (stop_nocomma k Hk)). reflexivity. }
+  assert (Hword : forall (b : bool) w,
+          fields_mode (lit w ++ po_ws1 o ++ names_text o (n :: l) ++ k)
+          = POk b (po_ws1 o ++ names_text o (n :: l) ++ k) ->
+          (LET mode, r2 <- popt fields_mode (lit w ++ po_ws1 o ++ names_text o (n :: l) ++ k) IN
+           LET fs, r3 <- var_list r2 IN
+           POk (LStage (SFields (match mode with Some m0 => m0 | None => true end) fs)) r3)
+          = POk (LStage (SFields b (n :: l))) k).
+  { intros b w H. unfold popt. rewrite H. cbn [pbind].
+    rewrite (var_list_ok (po_ws1 o) n l k w1_sp (stop_nid k Hk) (stop_nocomma k Hk)). reflexivity. }
+  destruct (w1_cons (names_text o (n :: l) ++ k)) as (c & r & E & Hc).
+  destruct (Spelling_proofs.fields_mode_synonyms (po_ws1 o ++ names_text o (n :: l) ++ k))
+    as (_ & S2 & S3 & _ & S5 & S6).
+  { rewrite E. exact Hc. }
+  unfold fmode_ok in Hm. destruct only.
+  - destruct Hm as [[-> Hn]|[->|[->| ->]]].
+    + cbn [app]. rewrite ms1_w1 by (rewrite names_cons, <- app_assoc; apply nsp_ident). cbn [pbind].
+      unfold popt. rewrite names_cons at 1. rewrite <- app_assoc.
+      rewrite fields_mode_fail; [|exact Hn|apply nid_tail; now apply stop_nid].
+      cbn [pbind].
+      pose proof (var_list_ok [] n l k eq_refl (stop_nid k Hk) (stop_nocomma k Hk)) as Hv.
+      cbn [app] in Hv. rewrite Hv. reflexivity.
+    + cbn [app]. rewrite ms1_w1 by reflexivity. cbn [pbind]. apply (Hsym true). apply fields_mode_plus.
+    + rewrite <- !app_assoc. rewrite ms1_w1 by reflexivity. cbn [pbind]. now apply (Hword true "only").
+    + rewrite <- !app_assoc. rewrite ms1_w1 by reflexivity. cbn [pbind]. now apply (Hword true "include").
+  - destruct Hm as [->|[->| ->]].
+    + rewrite <- !app_assoc. rewrite ms1_w1 by reflexivity. cbn [pbind]. now apply (Hword false "except").
+    + cbn [app]. rewrite ms1_w1 by reflexivity. cbn [pbind]. apply (Hsym false). apply fields_mode_minus.
+    + rewrite <- !app_assoc. rewrite ms1_w1 by reflexivity. cbn [pbind]. now apply (Hword false "drop").
+Qed.
+
+(** total without `as`: the default name *)
+Lemma total_rt_default e k :
+  wf_expr e = true -> stage_stop k = true ->
+  p_total ((lit "total" ++ arg_text o e) ++ k) = POk (LStage (STotal e (lit "_total"))) k.
+Proof.
+  intros Hwf Hk. rewrite <- !app_assoc. unfold p_total.
+  rewrite pkw_ok by reflexivity. cbn [pbind].
+  unfold req_single_arg, pexpect. rewrite single_arg_ok by exact Hwf. cbn [pbind].
+  rewrite stop_word_then; [|exact Hk|reflexivity]. cbn [pbind].
+  now rewrite stop_pipe.
+Qed.
+
+(** parse with the `from` clause after the `as` clause *)
+Lemma folops_from x : folops 0 (lit "from" ++ x).
+Proof. repeat split; intros; vm_compute; reflexivity. Qed.
+
+Lemma parse_rt_from_last pat n l e (nodrop noconv : bool) k :
+  wf_expr e = true -> stage_stop k = true -> not_oror k = true ->
+  p_parse ((lit "parse" ++ po_ws1 o ++ quote_str o pat
+            ++ ((po_ws1 o ++ lit "as" ++ po_ws1 o ++ names_text o (n :: l)) ++ from_text o (Some e))
+            ++ (if nodrop then po_ws1 o ++ lit "nodrop" else [])
+            ++ (if noconv then po_ws1 o ++ lit "noconvert" else [])) ++ k)
+  = POk (LStage (SParse pat (n :: l) (Some e) nodrop noconv)) k.
+Proof.
+  intros Hwf Hk Hk2. rewrite <- !app_assoc.
+  set (T3 := (if noconv then po_ws1 o ++ lit "noconvert" else []) ++ k).
+  set (T2 := (if nodrop then po_ws1 o ++ lit "nodrop" else []) ++ T3).
+  set (T1 := from_text o (Some e) ++ T2).
+  assert (H3 : tailW [lit "noconvert"] T3).
+  { subst T3. destruct noconv; [right|now left]. exists (lit "noconvert"), k. split; [now left|].
+    now rewrite <- !app_assoc. }
+  assert (H2 : tailW [lit "nodrop"; lit "noconvert"] T2).
+  { subst T2. destruct nodrop.
+    - right. exists (lit "nodrop"), T3. split; [now left|]. now rewrite <- !app_assoc.
+    - cbn [app]. revert H3. apply tailW_mono. intros w [<-|[]]. right. now left. }
+  assert (HF : fol 0 T2).
+  { subst T2. destruct nodrop.
+    - rewrite <- !app_assoc. apply fol_w1, folops_nodrop.
+    - cbn [app]. subst T3. destruct noconv.
+      + rewrite <- !app_assoc. apply fol_w1, folops_noconvert.
+      + cbn [app]. now apply stop_fol. }
+  assert (HT1 : tailW [lit "from"] T1).
+  { subst T1. right. exists (lit "from"), (po_ws1 o ++ pp o 0 e ++ T2). split; [now left|].
+    unfold from_text. now rewrite <- !app_assoc. }
+  unfold p_parse. unfold ptag at 1. rewrite Roundtrip_proofs.strip_prefix_app. cbn [pbind].
+  rewrite ms1_w1 by apply nsp_quote. cbn [pbind].
+  rewrite regex_none. cbn [pbind].
+  unfold req_quoted_string, pexpect. rewrite quoted_string_ok. cbn [pbind].
+  rewrite (tail_opt_none from_clause [lit "as"] _).
+  2:{ right. exists (lit "as"), (po_ws1 o ++ names_text o (n :: l) ++ T1). split; [now left|reflexivity]. }
+  2:{ exact dead_from_clause. }
+  2:{ intros wd x [<-|[]]; split; reflexivity. }
+  cbn [pbind].
+  change (fun s : str => LET _a, x <- ms1 s IN LET _b, y <- ptag "as" x IN LET _c, z <- ms1 y IN var_list z)
+    with as_list.
+  assert (HA : popt as_list (po_ws1 o ++ lit "as" ++ po_ws1 o ++ names_text o (n :: l) ++ T1)
+               = POk (Some (n :: l)) T1).
+  { unfold popt, as_list. rewrite ms1_w1 by reflexivity. cbn [pbind].
+    unfold ptag. rewrite Roundtrip_proofs.strip_prefix_app. cbn [pbind].
+    rewrite ms1_w1 by (rewrite names_cons, <- app_assoc; apply nsp_ident). cbn [pbind].
+    pose proof (var_list_ok [] n l T1 eq_refl (tail_nid _ _ HT1)) as Hv. cbn [app] in Hv.
+    rewrite Hv; [reflexivity|]. apply (tail_nocomma _ _ HT1).
+    intros wd x [<-|[]]; split; reflexivity. }
+  rewrite HA. cbn [pbind].
+  subst T1. rewrite from1_ok; [|exact Hwf|intros _; exact HF|discriminate].
+  cbn [pbind].
+  assert (HN : opt_ws1_then (ptag "nodrop") T2 = POk (if nodrop then Some tt else None) T3).
+  { subst T2. destruct nodrop.
+    - rewrite <- !app_assoc. unfold opt_ws1_then. rewrite ms1_w1 by reflexivity.
+      unfold ptag. now rewrite Roundtrip_proofs.strip_prefix_app.
+    - cbn [app]. apply (tail_opt_none _ _ _ H3 (fun s => dead_ptag "nodrop" s eq_refl)).
+      intros wd x [<-|[]]; split; reflexivity. }
+  rewrite HN. cbn [pbind].
+  assert (HC : opt_ws1_then (ptag "noconvert") T3 = POk (if noconv then Some tt else None) k).
+  { subst T3. destruct noconv.
+    - rewrite <- !app_assoc. unfold opt_ws1_then. rewrite ms1_w1 by reflexivity.
+      unfold ptag. now rewrite Roundtrip_proofs.strip_prefix_app.
+    - cbn [app]. apply stop_opt_ws1; [exact Hk|]. exact (fun s => dead_ptag "noconvert" s eq_refl). }
+  rewrite HC. cbn [pbind].
+  rewrite stop_pipe by exact Hk. cbn [pbind].
+  destruct nodrop, noconv; reflexivity.
+Qed.
+
 (** ** all row operators *)
 Lemma inline_rt st t k :
   plain_inline st = true -> wf_stage o st = true -> stage_ok st = true ->
